@@ -173,12 +173,12 @@ const (
 	),
 	bounds as (
 		select
-			case when ? < 0
-				then (select len from counts) + ?
+			max(0, case when ? < 0
+				then coalesce((select len from counts), 0) + ?
 				else ?
-			end as start,
+			end) as start,
 			case when ? < 0
-				then (select len from counts) + ?
+				then coalesce((select len from counts), 0) + ?
 				else ?
 			end as stop
 	)
@@ -188,7 +188,7 @@ const (
 	order by pos
 	limit
 		(select start from bounds),
-		((select stop from bounds) - (select start from bounds) + 1)`
+		max(0, (select stop from bounds) - (select start from bounds) + 1)`
 
 	sqlSet = `
 	with curkey as (
@@ -215,12 +215,12 @@ const (
 	),
 	bounds as (
 		select
-			case when ? < 0
-				then (select len from counts) + ?
+			max(0, case when ? < 0
+				then coalesce((select len from counts), 0) + ?
 				else ?
-			end as start,
+			end) as start,
 			case when ? < 0
-				then (select len from counts) + ?
+				then coalesce((select len from counts), 0) + ?
 				else ?
 			end as stop
 	),
@@ -230,7 +230,7 @@ const (
 		order by pos
 		limit
 			(select start from bounds),
-			((select stop from bounds) - (select start from bounds) + 1)
+			max(0, (select stop from bounds) - (select start from bounds) + 1)
 	)
 	delete from rlist
 	where
